@@ -21,8 +21,9 @@ func main() {
 	if scratchDir == "" {
 		scratchDir = os.TempDir()
 	}
-	vsys.Tracing.Store(os.Getenv("VERIF_TRACE") != "")
 	mode := *vlib.FlagMode
+	// the textual shim log is the witness of ledger / fault findings; it is too costly for the bulk-traffic modes
+	vsys.Tracing.Store(os.Getenv("VERIF_TRACE") != "" || mode == "c04" || mode == "c06" || mode == "c07" || mode == "c18" || mode == "c19")
 	keys := map[string]struct{}{}
 	r := vlib.NewRand(res.Seed)
 	switch mode {
@@ -162,6 +163,39 @@ func main() {
 		res.Obs("faults_planned_but_site_not_reached", notReached)
 		res.Extra["not_reached"] = nr
 		res.Sample(map[string]any{"case": "c18", "fault": "read:ECONNRESET@1 on an accepted connection", "workload": "6 echo connections with content oracle (2 of them bulk, creating back-pressure)"})
+	case "c15":
+		ns := []int{1, 2, 3, 4, 7}
+		if res.Thorough() {
+			ns = []int{1, 2, 3, 4, 5, 7, 8, 16, 32}
+		}
+		i := 0
+		for _, n := range ns {
+			for _, lb := range []gnet.LoadBalancing{gnet.RoundRobin, gnet.LeastConnections, gnet.SourceAddrHash} {
+				for _, nw := range []string{"tcp", "unix"} {
+					if !res.Thorough() && nw == "unix" && n > 3 {
+						continue
+					}
+					c := cfg{Loops: n, Net: nw, LB: lb, RCap: 1024, WCap: 1024, ET: i%2 == 1}
+					res.Eval(runC15Case(c, res.Seed*1000703+uint64(i), keys))
+					res.Checkpoint()
+					i++
+				}
+			}
+		}
+		res.Sample(map[string]any{"case": "c15", "how": "connections made one at a time; the loop of each OnOpen is compared with the policy's prediction from the monitor's own open/close log"})
+	case "c17":
+		subs := []string{"tcp4-fixed", "tcp6-fixed", "tcp4-port0", "tcp6-zone-lo", "tcp6-linklocal", "unix"}
+		rounds := 1
+		if res.Thorough() {
+			rounds = 8
+		}
+		for k := 0; k < rounds; k++ {
+			for i, sub := range subs {
+				res.Eval(runC17Case(sub, res.Seed*1000801+uint64(k*10+i), keys))
+				res.Checkpoint()
+			}
+		}
+		res.Sample(map[string]any{"case": "c17", "subcases": subs})
 	case "c05":
 		nlife := 5
 		if res.Thorough() {
